@@ -816,9 +816,114 @@ class Directed:
                     "var m = {}; for i in 0..600 { m.insert(i * P32, \"v${i}\"); } print(m.len()); print(m.get(599 * P32));"]
         return pre + body
 
+    # --- identity of a dead object reused: an object is used in an operation that could remember its address, dropped,
+    #     and a NEW object of the same kind and size is used in the same operation; repeated in a loop of function calls so
+    #     that a collect-at-every-allocation build frees the first and hands its block to the second (no quarantine!)
+    REUSE_PRELUDE = [
+        "class Countdown { #[constructor] fn new(self, items, stop) { self.items = items; self.pos = 0; self.stop = stop; } "
+        "fn iter(self) { return self; } fn next(self) { if self.pos == self.items.len() { return self.stop; } self.pos = self.pos + 1; "
+        "return self.items[self.pos - 1]; } }",
+        "var keepers = [];",
+    ]
+
+    def reuse(self):
+        r = self.rng
+        kinds = ["stopiter", "stopiter_keep", "stopiter_methods", "stopiter", "error", "stopiter_methods", "error_uncaught", "iter",
+                 "stopiter", "bound", "closure", "range", "fiber", "mapkey", "mixed", "stopiter"]
+        self.reuse_i = getattr(self, "reuse_i", -1) + 1
+        kind = kinds[self.reuse_i % len(kinds)]
+        rounds = r.randint(3, 5)
+        n1, n2 = r.randint(1, 4), r.randint(2, 5)
+        pre = list(self.REUSE_PRELUDE)
+        if kind.startswith("stopiter"):
+            keep = "keepers.push(d);" if kind == "stopiter_keep" else ""
+            meth = " fn tag(self) { return \"done\"; } fn other(self) { return 1; }" if kind == "stopiter_methods" else ""
+            pmeth = " fn tag(self) { return \"fruit\"; } fn other(self) { return 2; }" if kind == "stopiter_methods" and r.random() < 0.5 else ""
+            # first pass: 1-2 function-local subclasses of StopIter (optionally a plain sibling declared before / after)
+            first = ["fn first_pass(k) {"]
+            if r.random() < 0.3:
+                first += ["  class Before {}"]
+            first += ["  #[constructor(new), derive(StopIter)]", "  class Done {%s}" % meth]
+            two = r.random() < 0.4
+            if two:
+                first += ["  #[constructor(new), derive(Done)]", "  class Done2 {}"]
+            if r.random() < 0.3:
+                first += ["  class After {}"]
+            first += ["  var d = Done.new(); %s" % keep,
+                      "  var count = 0; for v in Countdown.new([%s], d) { count = count + 1; }" % ", ".join(str(i) for i in range(n1))]
+            if two:
+                first += ["  for v in Countdown.new([k], Done2.new()) { count = count + 10; }"]
+            first += ["  return count;", "}"]
+            # second pass: 2-4 plain function-local classes, loops over instances of each of them
+            names = ["Apple", "Pear", "Plum", "Fig"][:r.randint(2, 4)]
+            second = ["fn second_pass(k) {"]
+            for nm in names:
+                second += ["  #[constructor(new)]", "  class %s {%s}" % (nm, pmeth)]
+            second += ["  var count = 0;"]
+            order = list(names)
+            r.shuffle(order)
+            for nm in order:
+                second += ["  for v in [%s] { count = count + 1; }" % ", ".join(["%s.new()" % nm] * n2)]
+            second += ["  for v in Countdown.new([%s, k], StopIter.new()) { count = count + 1; }" % ", ".join("%s.new()" % nm for nm in names),
+                       "  return count;", "}"]
+            body = first + second + [
+                "for k in 0..%d { print(\"first pass: ${first_pass(k)}\"); print(\"second pass: ${second_pass(k)}\"); }" % rounds,
+                "print(keepers.len());"]
+        elif kind in ("error", "error_uncaught"):
+            body = ["fn raise_local(k) {", "  #[derive(Error)]", "  class LocalErr { #[constructor] fn new(self, c) { self.context = c; } }",
+                    "  try { throw LocalErr.new(\"ctx${k}\"); } catch e { return \"${e.context} ${type(e) == LocalErr} ${type(e) == Error}\"; }", "}",
+                    "fn raise_other(k) {", "  #[derive(Error)]", "  class OtherErr { #[constructor] fn new(self, c) { self.context = c; } }", "  #[constructor(new)]", "  class Plain { fn tag(self) { return \"plain\"; } }",
+                    "  var out = [];",
+                    "  try { throw OtherErr.new([k]); } catch e { out.push(e.context); out.push(type(e) == OtherErr); }",
+                    "  try { throw Plain.new(); } catch e { out.push(e.tag()); out.push(type(e) == Plain); }",
+                    "  try { [][k]; } catch e { out.push(e.context); out.push(type(e) == IndexError); }",
+                    "  return out;", "}",
+                    "for k in 0..%d { print(raise_local(k)); print(raise_other(k)); }" % rounds]
+            if kind == "error_uncaught":
+                body += ["fn last() { #[derive(ValueError)] class Mine { #[constructor] fn new(self, c) { self.context = c; } } throw Mine.new(\"uncaught mine\"); }", "last();"]
+        elif kind == "iter":
+            body = ["fn local_iter(k) {", "  #[derive(Iter)]",
+                    "  class Up { #[constructor] fn new(self, n) { self.i = 0; self.n = n; } fn iter(self) { return self; } "
+                    "fn next(self) { if self.i == self.n { return StopIter.new(); } self.i += 1; return self.i * k; } }",
+                    "  return Up.new(%d).map(|x| x + 1).filter(|x| x %% 2 == 0).collect();" % (n2 + 2), "}",
+                    "fn plain_iter(k) {", "  class Down { #[constructor] fn new(self, n) { self.n = n; } fn iter(self) { return self; } "
+                    "fn next(self) { if self.n == 0 { return StopIter.new(); } self.n -= 1; return [self.n, k]; } }",
+                    "  var out = []; for v in Down.new(%d) { out.push(v); } return out;" % n2, "}",
+                    "for k in 0..%d { print(local_iter(k)); print(plain_iter(k)); print((0..k).iter().map(|x| [x]).collect()); }" % rounds]
+        elif kind == "bound":
+            body = ["fn bound_a(k) { #[constructor(new)] class A { fn get(self) { return [\"a\", k]; } } var m = A.new().get; return m(); }",
+                    "fn bound_b(k) { #[constructor(new)] class B { fn get(self) { return (\"b\", k); } fn get2(self) { return 2; } } "
+                    "var o = B.new(); var m = o.get; var m2 = o.get2; var p = [k].push; p(m2()); return [m(), [k].len()]; }",
+                    "for k in 0..%d { print(bound_a(k)); print(bound_b(k)); print(bound_a(k + 10)); }" % rounds]
+        elif kind == "closure":
+            body = ["fn mk_a(k) { var x = [k]; var f = || x; var g = |y| [x, y]; return [f(), g(1)]; }",
+                    "fn mk_b(k) { var x = (k, k); var f = || x; var h = |y, z| (x, y, z); return [f(), h(2, 3)]; }",
+                    "for k in 0..%d { print(mk_a(k)); print(mk_b(k)); var c = mk_a; print(c(k + 100)[0]); }" % rounds]
+        elif kind == "range":
+            body = ["fn over(lo, hi) { var t = 0; var r = lo..hi; for i in r { t += i; } for i in lo..hi { t += 1; } return [t, r]; }",
+                    "for k in 0..%d { print(over(k, k + %d)); print(over(k + 1, k)); print(over(-k, %d)); print(\"abcdefgh\"[k..(k + 3)]); }" % (rounds, n2, n2)]
+        elif kind == "fiber":
+            body = ["fn spin(k) { var f = Fiber.new(|x| { var y = Fiber.yield([x]); return (x, y); }); var a = f.call(k); var b = f.call(k + 1); "
+                    "return [a, b, f.has_finished()]; }",
+                    "fn spin2(k) { var g = Fiber.new(|| { Fiber.yield(k); Fiber.yield(k + 1); }); var out = [g.call(), g.has_finished(), g.call(), g.call(), g.has_finished()]; "
+                    "try { g.call(); } catch e { out.push(e.context); } return out; }",
+                    "for k in 0..%d { print(spin(k)); print(spin2(k)); }" % rounds]
+        elif kind == "mapkey":
+            body = ["var reg = {};",
+                    "fn register(k) { #[constructor(new)] class Local { fn id(self) { return k; } } reg.insert(Local, k); return [reg.has_key(Local), reg.len(), Local.new().id()]; }",
+                    "fn lookup(k) { #[constructor(new)] class Local { fn id(self) { return -k; } } class Other {} return [reg.has_key(Local), reg.has_key(Other), reg.len(), Local.new().id()]; }",
+                    "for k in 0..%d { print(register(k)); print(lookup(k)); }" % rounds, "print(reg.len());"]
+        else:
+            body = ["fn a(k) { #[constructor(new), derive(StopIter)] class S {} #[derive(Error)] class E { #[constructor] fn new(self, c) { self.context = c; } } var n = 0; "
+                    "for v in Countdown.new([k, k], S.new()) { n += 1; } try { throw E.new(k); } catch e { n += 100; print(e.context); } return n; }",
+                    "fn b(k) { #[constructor(new)] class P {} #[constructor(new)] class Q { fn m(self) { return k; } } var n = 0; var qm = Q.new().m; "
+                    "for v in [P.new(), Q.new(), P.new()] { n += 1; } try { throw P.new(); } catch e { n += 10; } var f = Fiber.new(|| qm()); return [n, f.call()]; }",
+                    "for k in 0..%d { print(a(k)); print(b(k)); }" % rounds]
+        return pre + body
+
     FAMILIES = [("ret_finally", 16), ("bound_receiver", 7), ("native_args", 12), ("class_building", 4), ("iterating", 7),
                 ("fiber_held", 10), ("misc", 8), ("module", 3),
-                ("loop_try_exit", 12), ("arith", 26)]
+                ("loop_try_exit", 12), ("arith", 26), ("reuse", 16)]
 
     def programs(self):
         """about 65 programs: [{name, line, src, snippets, kinds}]"""
@@ -833,10 +938,13 @@ class Directed:
                     continue
                 body = getattr(self, fam)()
                 wrap = self.rng.random()
-                if wrap < 0.35 and fam not in ("class_building", "arith", "loop_try_exit") and not any(l.startswith(("fn ", "class ", "#[")) for l in body):
+                if wrap < 0.35 and fam not in ("class_building", "arith", "loop_try_exit", "reuse") and not any(l.startswith(("fn ", "class ", "#[")) for l in body):
                     body = ["fn scoped() {"] + ["  " + l for l in body] + ["}", "scoped();"]
                 src = "\n".join(self.PRELUDE + body) + "\n"
-                out.append({"name": "dir:%s:%d" % (fam, i), "line": "run stats=1 " + hx(src), "src": src, "kinds": [fam]})
+                # the reuse family runs through `c10reuse` (ext_c10.rs): the records of `run` plus the count of managed
+                # allocations placed at an address an earlier allocation of the run had (evidence, not compared)
+                cmd = "c10reuse " if fam == "reuse" else "run stats=1 "
+                out.append({"name": "dir:%s:%d" % (fam, i), "line": cmd + hx(src), "src": src, "kinds": [fam]})
         return out
 
 
@@ -1069,7 +1177,20 @@ def differential(ctx, cfgs, n_generated, label):
                               "detail": sigs[other][2], "msgs": sigs[other][3]},
                       known_class=kc, groups={k[:200]: v for k, v in groups.items()} if len(groups) <= 4 else len(groups))
         reported += 1
+    # evidence for the "identity of a dead object reused" family: did the builds really meet address reuse?
+    ru = {}
+    for i, cf in enumerate(cfgs):
+        met = cls = 0
+        for j, pr in enumerate(progs):
+            if pr["line"].startswith("c10reuse "):
+                t = results[i][j].tagged("RU")
+                if t and int(t[-1][1]) > 0:
+                    met += 1
+                if t and int(t[-1][2]) > 0:
+                    cls += 1
+        ru[cfg_name(*cf)] = {"programs_with_address_reuse": met, "programs_with_class_address_reuse": cls}
     c = ctx.cov
+    c["reuse_family_address_reuse"] = ru if len(ru) <= 4 else dict(list(ru.items())[:3])
     c["configurations"] = [cfg_name(*x) for x in cfgs]
     c["programs"] = c.get("programs", 0) + len(progs)
     c["programs_repo"] = len(repo)
